@@ -112,6 +112,13 @@ def tmap(f, *trees):
   return jax.tree_util.tree_map(f, *trees)
 
 
+def stacked_shape(shape, axis, n):
+  """Shape after stacking n copies along `axis` (negative axes count from the end of the STACKED array, like np.stack)."""
+  shape = tuple(shape)
+  pos = axis if axis >= 0 else len(shape) + 1 + axis
+  return shape[:pos] + (n,) + shape[pos:]
+
+
 def take(tree, axis, t):
   return tmap(lambda a: np.take(np.asarray(a), t, axis=axis), tree)
 
@@ -167,8 +174,12 @@ def run_scan(ctx, i, rng):
   for col, r in list(roles.items()):
     if r[0] == 'axis' and r[1] > rank_min[col]:
       roles[col] = ('axis', rank_min[col])
-  in_ax = rng.choice([0, 0, 1])
-  out_ax = rng.choice([0, 0, 1])
+  # negative axes (counted on the stacked array): -1 = new last axis of EVERY leaf whatever its rank, -2 needs rank >= 1
+  for col, r in list(roles.items()):
+    if r[0] == 'axis' and rng.random() < 0.3:
+      roles[col] = ('axis', -1 if rank_min[col] == 0 or rng.random() < 0.7 else -2)
+  in_ax = rng.choice([0, 0, 1, -1])
+  out_ax = rng.choice([0, 0, 1, -1, -2])
   split_params = rng.random() < 0.7
   if roles.get('params', ('x',))[0] == 'broadcast':
     split_params = False  # a broadcast collection cannot depend on per-iteration rngs
@@ -207,7 +218,7 @@ def run_scan(ctx, i, rng):
       if ok:
         for col in V:
           r = roles[col]
-          want = tmap(lambda a: tuple(np.insert(np.shape(a), r[1], T)) if r[0] == 'axis' else tuple(np.shape(a)), Vb[col])
+          want = tmap(lambda a: stacked_shape(np.shape(a), r[1], T) if r[0] == 'axis' else tuple(np.shape(a)), Vb[col])
           got = tmap(lambda a: tuple(np.shape(a)), V[col])
           ok = ok and want == got
       ctx.check(ok, 'scan.init:shapes', lambda: dict(case=desc, got=repr(tmap(np.shape, V))[:400], body=repr(tmap(np.shape, Vb))[:400]))
@@ -305,7 +316,7 @@ def run_vmap(ctx, i, rng):
     if ok:
       for col in V:
         r = roles[col]
-        want = tmap(lambda a: tuple(np.insert(np.shape(a), r[1], n)) if r[0] == 'axis' else tuple(np.shape(a)), Vb[col])
+        want = tmap(lambda a: stacked_shape(np.shape(a), r[1], n) if r[0] == 'axis' else tuple(np.shape(a)), Vb[col])
         ok = ok and want == tmap(lambda a: tuple(np.shape(a)), V[col])
     ctx.check(ok, 'vmap:init_shapes', lambda: dict(case=desc, got=repr(tmap(np.shape, V))[:400]))
     if not ok:
